@@ -25,11 +25,14 @@ package listeners
 //@ ensures err == nil && op == 2 ==> c.wnext == old(c.wnext) + refof(r).blen && (forall i int :: 0 <= i && i < refof(r).blen ==> refof(r).bdata[i] == c.wstream[old(c.wnext) + i])
 //@ ensures !(err == nil && op == 2) ==> c.wnext == old(c.wnext)
 //@ ensures c.wnext >= 0
+// (gorilla reports a connection that ended as a CloseError / io.ErrUnexpectedEOF, never as io.EOF: conn.go turns io.EOF into errUnexpectedEOF)
+//@ ensures err != nil ==> !errIs(err, io.EOF)
 // a message reader: Read copies the next bytes of the message; io.EOF exactly when the message is exhausted
 // verif:ext io.Reader.Read params=self,p results=n,err
 //@ modifies contents(p), refof(self).rpos
 //@ ensures 0 <= n && n <= len(p) && refof(self).rpos == old(refof(self).rpos) + n && refof(self).rpos <= refof(self).blen
-//@ ensures forall i int :: 0 <= i && i < n ==> p[i] == refof(self).bdata[old(refof(self).rpos) + i]
+// (stated over positions of the backing array, so that a caller reading p[n:] can match it against its own indices)
+//@ ensures forall j int {backing(p)[j]} :: offset(p) <= j && j < offset(p) + n ==> backing(p)[j] == refof(self).bdata[old(refof(self).rpos) + j - offset(p)]
 //@ ensures errIs(err, io.EOF) ==> refof(self).rpos == refof(self).blen
 // verif:ext websocket.Conn.WriteMessage params=c,messageType,data results=err
 //@ requires c != nil
@@ -42,7 +45,7 @@ package listeners
 // how many bytes of the client's stream Read has handed to the broker: everything up to the next message, minus what is left of
 // the message being read
 // verif:def delivered(ws *wsConn) int = ws.r == nil ? ws.c.wnext : ws.c.wnext - (refof(ws.r).blen - refof(ws.r).rpos)
-// verif:def wsOK(ws *wsConn) bool = ws != nil && ws.c != nil && ws.c.wnext >= 0 && (ws.r != nil ==> refof(ws.r) != 0 && 0 <= refof(ws.r).rpos && refof(ws.r).rpos <= refof(ws.r).blen && refof(ws.r).blen <= ws.c.wnext && (forall i int :: 0 <= i && i < refof(ws.r).blen ==> refof(ws.r).bdata[i] == ws.c.wstream[ws.c.wnext - refof(ws.r).blen + i]))
+// verif:def wsOK(ws *wsConn) bool = ws != nil && ws.c != nil && ws.c.wnext >= 0 && (ws.r != nil ==> refof(ws.r) != 0 && 0 <= refof(ws.r).rpos && refof(ws.r).rpos <= refof(ws.r).blen && refof(ws.r).blen <= ws.c.wnext && (forall i int {refof(ws.r).bdata[i]} :: 0 <= i && i < refof(ws.r).blen ==> refof(ws.r).bdata[i] == ws.c.wstream[ws.c.wnext - refof(ws.r).blen + i]))
 // verif:func listeners.wsConn.Read
 //@ requires wsOK(ws)
 //@ modifies contents(p), ws.r, ws.c.wnext, ws.c.wnonbinary, all(rpos)
@@ -50,6 +53,7 @@ package listeners
 //@ ensures C39-the-position-in-the-clients-stream-advances-by-the-bytes-read: r1 == nil ==> 0 <= r0 && r0 <= len(p) && delivered(ws) == old(delivered(ws)) + r0
 //@ ensures C39-the-bytes-read-are-the-next-bytes-of-the-clients-stream: r1 == nil ==> (forall i int :: 0 <= i && i < r0 ==> p[i] == ws.c.wstream[old(delivered(ws)) + i])
 //@ ensures C39-a-non-binary-message-is-an-error-and-delivers-nothing: ws.c.wnonbinary != old(ws.c.wnonbinary) ==> r1 != nil && r0 == 0
+//@ ensures C39-the-end-of-a-message-is-not-an-error: r1 != nil && ws.c.wnonbinary == old(ws.c.wnonbinary) ==> !errIs(r1, io.EOF)
 //@ ensures C39-nothing-is-skipped-or-repeated-between-calls: r1 == nil ==> ws.c.wstream == old(ws.c.wstream)
 // verif:loop listeners.wsConn.Read 1
 //@ invariant 0 <= n && n <= len(p) && wsOK(ws) && ws.r != nil && ws.c == old(ws.c)
